@@ -101,7 +101,7 @@ func runMeasure(e *simcore.Env, tp *simcore.Tape) {
 	synctest.Test(e.T, func(*testing.T) {
 		knobDesc, knobRestore := simknobs.Draw(tp, "measure")
 		defer knobRestore()
-		e.Event("%s", knobDesc)
+		simknobs.Record(e, knobDesc)
 		s := wl.GenMeasureSchema(tp, wl.SchemaOpts{MaxShards: 3})
 		flags := []string{"--measure-flush-timeout=" + []string{"1s", "5s"}[tp.Choose(2)], fmt.Sprintf("--measure-max-merge-parts=%d", tp.Range(2, 6))}
 		twinFlags := vecFlags(tp, "measure")
@@ -389,7 +389,7 @@ func runStreamOn(e *simcore.Env, tp *simcore.Tape, cluster bool) {
 	synctest.Test(e.T, func(*testing.T) {
 		knobDesc, knobRestore := simknobs.Draw(tp, "stream")
 		defer knobRestore()
-		e.Event("%s", knobDesc)
+		simknobs.Record(e, knobDesc)
 		s := wl.GenStreamSchema(tp, wl.SchemaOpts{MaxShards: 3})
 		flags := []string{"--stream-flush-timeout=" + []string{"1s", "5s"}[tp.Choose(2)], fmt.Sprintf("--stream-max-merge-parts=%d", tp.Range(2, 6))}
 		twinFlags := vecFlags(tp, "stream")
